@@ -286,4 +286,37 @@ theorem execP_sound (s : Stmt) : PSound (exec s) (fp s) (execP s) := by
       (trip (eval lo σ) (eval hi σ) (eval st σ)) 0 σ U (fun y hy hm => hU y hy (by simp [hm]))
     exact ⟨U', by simp [execP, h1, h2, h3, exec, e'], s', w'⟩
 
+/-! ## commutation -/
+
+/-- **Bernstein commutation at element level**: two programs with sound footprints whose
+footprints AT THE STORE `σ` do not conflict commute on `σ` (every location). -/
+theorem Sound.comm {f₁ f₂ : Store → Store} {g₁ g₂ : Store → Fp} (h₁ : Sound f₁ g₁) (h₂ : Sound f₂ g₂)
+    (σ : Store)
+    (d₁₂ : ∀ l ∈ (g₁ σ).2, l ∉ (g₂ σ).1 ∧ l ∉ (g₂ σ).2)
+    (d₂₁ : ∀ l ∈ (g₂ σ).2, l ∉ (g₁ σ).1 ∧ l ∉ (g₁ σ).2) :
+    f₂ (f₁ σ) = f₁ (f₂ σ) := by
+  -- running the other program first does not disturb the exposed reads
+  have a₁ : AgreeL (fun l => l ∉ (g₁ σ).2) σ (f₁ σ) := fun l hl => (h₁.frame σ l hl).symm
+  have a₂ : AgreeL (fun l => l ∉ (g₂ σ).2) σ (f₂ σ) := fun l hl => (h₂.frame σ l hl).symm
+  obtain ⟨e₂, c₂⟩ := h₂.loc σ (f₁ σ) _ (fun l hl hw => (d₁₂ l hw).1 hl) a₁
+  obtain ⟨e₁, c₁⟩ := h₁.loc σ (f₂ σ) _ (fun l hl hw => (d₂₁ l hw).1 hl) a₂
+  apply Store.ext
+  funext l
+  by_cases hw₁ : l ∈ (g₁ σ).2
+  · have hw₂ : l ∉ (g₂ σ).2 := (d₁₂ l hw₁).2
+    rw [h₂.frame (f₁ σ) l (by rw [e₂]; exact hw₂)]
+    exact c₁ l (Or.inr hw₁)
+  · by_cases hw₂ : l ∈ (g₂ σ).2
+    · rw [h₁.frame (f₂ σ) l (by rw [e₁]; exact hw₁)]
+      exact (c₂ l (Or.inr hw₂)).symm
+    · rw [h₂.frame (f₁ σ) l (by rw [e₂]; exact hw₂), h₁.frame (f₂ σ) l (by rw [e₁]; exact hw₁),
+        h₁.frame σ l hw₁, h₂.frame σ l hw₂]
+
+/-- `MiniFSem.exec_comm` at element level, with the dynamic footprints of the two statements -/
+theorem exec_comm_elem (s₁ s₂ : Stmt) (σ : Store)
+    (d₁₂ : ∀ l ∈ (fp s₁ σ).2, l ∉ (fp s₂ σ).1 ∧ l ∉ (fp s₂ σ).2)
+    (d₂₁ : ∀ l ∈ (fp s₂ σ).2, l ∉ (fp s₁ σ).1 ∧ l ∉ (fp s₁ σ).2) :
+    exec (.seq s₁ s₂) σ = exec (.seq s₂ s₁) σ :=
+  Sound.comm (fp_sound s₁) (fp_sound s₂) σ d₁₂ d₂₁
+
 end C09
